@@ -1,4 +1,5 @@
 import CwMt.Proofs.Engine
+import CwMt.Proofs.EngineOrder
 /-
   C03 — reply is invoked exactly when, and with exactly what, the sub-message dictates.
   Stated against the ghost invocation trace (one entry per contract entry-point invocation, in
@@ -43,5 +44,43 @@ theorem reply_when_wanted (cfg : Config E) (blk : Block) (fuel : Nat) (ch : Chai
       (executeSubmsg cfg blk (fuel + 2) ch contract sm tr).2 =
         tr₁ ++ [⟨contract, .reply ⟨sm.id, sm.payload, subResultOf r₁⟩, contractEnv blk contract, note⟩] ++ rest :=
   Engine.reply_when_wanted cfg blk fuel ch contract sm tr tr₁ r₁ cd code h hw hc hcode
+
+/-! ### order of whole executions: depth-first, siblings in list order, reply between a sub-message and its successor -/
+
+/-- Processing `sm :: rest` for the dispatching contract: the trace is, in this order and with nothing in
+between, (1) everything the sub-message `sm` ran, to any depth (`tSub`: exactly the trace of executing
+`sm.msg` as a message of the dispatcher), (2) everything its reply ran (`tReply`: empty, or starting with a
+`reply` invocation **on the dispatcher** that carries `sm.id` and `sm.payload`, followed by the reply's own
+sub-tree), (3) everything the remaining siblings ran (`tRest`) — and the remaining siblings run at all only
+if the sub-message together with its reply succeeded. -/
+theorem depth_first_order (cfg : Config E) (blk : Block) (fuel : Nat) (ch : Chain E) (contract : Addr)
+    (resp : AppResponse) (sm : SubMsg) (rest : List SubMsg) (tr : Trace) :
+    ∃ tSub tReply tRest : Trace,
+      (execute cfg blk fuel ch contract sm.msg tr).2 = tr ++ tSub ∧
+      (executeSubmsg cfg blk (fuel + 1) ch contract sm tr).2 = tr ++ tSub ++ tReply ∧
+      (processResponse cfg blk (fuel + 2) ch contract resp (sm :: rest) tr).2 = tr ++ tSub ++ tReply ++ tRest ∧
+      (∀ e, tReply.head? = some e → e.callee = contract ∧ ∃ res, e.entry = .reply ⟨sm.id, sm.payload, res⟩) ∧
+      (tRest ≠ [] → (executeSubmsg cfg blk (fuel + 1) ch contract sm tr).1.isOk = true) :=
+  EngineOrder.depth_first_order cfg blk fuel ch contract resp sm rest tr
+
+/-- A `reply` invocation at the head of `tReply` exists exactly when the outcome/mode pair demands one and the
+dispatcher (with its code) exists in the state the reply runs on; so per sub-message the dispatcher's reply
+entry point is entered at most once at this position, and never when not wanted. -/
+theorem reply_segment_empty_iff (cfg : Config E) (blk : Block) (fuel : Nat) (ch : Chain E) (contract : Addr)
+    (sm : SubMsg) (tr : Trace) :
+    ((executeSubmsg cfg blk (fuel + 2) ch contract sm tr).2 = (execute cfg blk (fuel + 1) ch contract sm.msg tr).2) ↔
+      ¬ (replyWanted (execute cfg blk (fuel + 1) ch contract sm.msg tr).1 sm.replyOn = true ∧
+         ∃ cd code, (replyState ch (execute cfg blk (fuel + 1) ch contract sm.msg tr).1).contracts.get? contract = some cd ∧
+           contractCode? cfg cd.codeId = some code) :=
+  EngineOrder.reply_segment_empty_iff cfg blk fuel ch contract sm tr
+
+/-- The contract's own entry point runs before anything it dispatched: executing `WasmMsg::Execute` appends
+the `execute` invocation first (if the contract exists), then the trace of processing its sub-messages. -/
+theorem body_before_submessages (cfg : Config E) (blk : Block) (fuel : Nat) (ch : Chain E) (sender : Addr)
+    (c : String) (m : Val) (funds : Coins) (tr : Trace) :
+    (execute cfg blk (fuel + 1) ch sender (.wasmExecute c m funds) tr).2 = tr ∨
+    ∃ note rest, (execute cfg blk (fuel + 1) ch sender (.wasmExecute c m funds) tr).2 =
+      tr ++ [⟨c, .execute ⟨sender, funds⟩ m, contractEnv blk c, note⟩] ++ rest :=
+  EngineOrder.body_before_submessages cfg blk fuel ch sender c m funds tr
 
 end CwMt.C03
